@@ -30,7 +30,7 @@ def plan(tier, seed):
 
 
 def scripts():
-    return {"const": lua_script("const.lua"), "nil": lua_script("nil.lua"), "fresh": lua_script("fresh.lua")}
+    return {"const": lua_script("const.lua"), "nil": lua_script("nil.lua"), "fresh": lua_script("fresh.lua"), "slow": lua_script("slow.lua")}
 
 
 def judge(ctx, s, flavour, desc, extra_env=None, diff=None):
